@@ -11,7 +11,9 @@
     / records, and markers with their status; the operations are MsgWriteScope, MsgAddScopeDataAccess,
     MsgUpdateValueOwners, MsgMigrateValueOwner, MsgDeleteScope, bank MsgSend and MsgMultiSend of scope
     tokens, authz grant / revoke, marker administration (access lists and status), a later block
-    time, sanction / unsanction, quarantine opt-in / opt-out / auto-accept / accept / decline. *)
+    time, sanction / unsanction, quarantine opt-in / opt-out / auto-accept / accept / decline, the
+    authz BeginBlocker of a chain (deletion of expired grants), and the marker module's messages aimed
+    at a scope token's denom (add a marker on it, mint, forced transfer, withdraw: always refused). *)
 From Coq Require Import ZArith NArith List Bool.
 From PV Require Import Metadata.ValueOwner Proofs.ValueOwnerProofs Proofs.ValueOwnerProofs2
   Proofs.ValueOwnerProofs3 Proofs.ValueOwnerProofs4 Proofs.ValueOwnerAuthz.
@@ -23,7 +25,7 @@ Theorem C09_init_wellformed : forall specs markers wasm blocked,
 Proof. exact init_inv. Qed.
 Print Assumptions C09_init_wellformed.
 
-(** The invariant is kept by every history of the eighteen operations. *)
+(** The invariant is kept by every history of the twenty-three operations. *)
 Theorem C09_invariant : forall ops s, Inv s -> Inv (run s ops).
 Proof. exact run_inv. Qed.
 Print Assumptions C09_invariant.
